@@ -284,6 +284,30 @@ var (
 	c03Prev   = map[string][]poisonSrc{} // per shape: the encodings of the last values seen
 )
 
+// poisonFor returns damaged encodings of the values of this shape seen before (per property), and remembers this one
+func poisonFor(prop string, shape []pField, wire []pRec, salt int) []string {
+	key := prop + "/" + shapeKey(shape)
+	c03PrevMu.Lock()
+	prev := append([]poisonSrc(nil), c03Prev[key]...)
+	c03PrevMu.Unlock()
+	var poison []string
+	for _, ps := range prev {
+		for _, recs := range damagedRecs(ps.recs) {
+			poison = append(poison, hex.EncodeToString(lift{ps.salt}.encodeRecs(recs, wireOpts{})))
+		}
+	}
+	if len(poison) > 24 {
+		poison = poison[:24]
+	}
+	c03PrevMu.Lock()
+	if len(prev) >= 3 {
+		prev = prev[1:]
+	}
+	c03Prev[key] = append(prev, poisonSrc{wire, salt})
+	c03PrevMu.Unlock()
+	return poison
+}
+
 // damagedRecs: the message with a record of an invalid wire type (7) appended - at the top level and inside
 // every embedded message / map entry (so that decoding fails after the fields before it were decoded) - and
 // with every embedded record's last field cut off
@@ -336,29 +360,10 @@ func c03Vector(c *Ctx, raw stdjson.RawMessage) {
 		}
 	}
 	// history: the round trip after failed decodes of damaged encodings of other values of the same type
-	key := shapeKey(v.Shape)
-	c03PrevMu.Lock()
-	prev := append([]poisonSrc(nil), c03Prev[key]...)
-	c03PrevMu.Unlock()
-	var poison []string
-	for _, ps := range prev {
-		for _, recs := range damagedRecs(ps.recs) {
-			poison = append(poison, hex.EncodeToString(lift{ps.salt}.encodeRecs(recs, wireOpts{})))
-		}
-	}
-	if len(poison) > 0 {
-		if len(poison) > 24 {
-			poison = poison[:24]
-		}
+	if poison := poisonFor("C03", v.Shape, v.Wire, salts[1]); len(poison) > 0 {
 		c.Case()
 		c03Run(c, protoCase{Shape: v.Shape, Val: v.Val, Salt: salts[1], Ptr: r.intn(2) == 0, Poison: poison})
 	}
-	c03PrevMu.Lock()
-	if len(prev) >= 3 {
-		prev = prev[1:]
-	}
-	c03Prev[key] = append(prev, poisonSrc{v.Wire, salts[1]})
-	c03PrevMu.Unlock()
 	// lifting: string lengths that take the sizes of the enclosing records across the varint boundaries
 	for _, n := range strLenSweep(c, r, v.Shape) {
 		c.Case()
@@ -446,6 +451,10 @@ func plainShape(shape []pField) (out []pField, zig, fixed bool) {
 func c12Decode(c *Ctx, k protoCase, finding string) {
 	b, _ := hex.DecodeString(k.Bytes)
 	t := structTypeOf(k.Shape, "")
+	for _, ph := range k.Poison {
+		pb, _ := hex.DecodeString(ph)
+		protect(func() { proto.Unmarshal(pb, reflect.New(t).Interface()) })
+	}
 	out := reflect.New(t)
 	var err error
 	c.Eval(1)
@@ -546,6 +555,14 @@ func c12Vector(c *Ctx, raw stdjson.RawMessage) {
 				f = "F-C12-3"
 			}
 			c12Decode(c, protoCase{Shape: v.Shape, Val: v.Val, Salt: salt, Bytes: hex.EncodeToString(b), What: what, Want: want}, f)
+			if what == "standard" || what == "zero-omitted" {
+				// the same after failed decodes of damaged encodings of other values of the type (legal encodings may
+				// leave default-valued keys / values / fields out: nothing stale may take their place)
+				if poison := poisonFor("C12", v.Shape, v.Wire, salt); len(poison) > 0 {
+					c.Case()
+					c12Decode(c, protoCase{Shape: v.Shape, Val: v.Val, Salt: salt, Bytes: hex.EncodeToString(b), What: what + " after failed decodes", Want: want, Poison: poison}, f)
+				}
+			}
 		}
 		try("standard", canon)
 		if rb, err := refEncode(v.Shape, canon); err == nil {
